@@ -446,7 +446,9 @@ func (c *CertChecker) CheckCert(principal string, cert *Certificate) error {
 	if after := int64(cert.ValidAfter); after < 0 || unixNow < int64(cert.ValidAfter) {
 		return fmt.Errorf("ssh: cert is not yet valid")
 	}
-	if before := int64(cert.ValidBefore); cert.ValidBefore != uint64(CertTimeInfinity) && (unixNow >= before || before < 0) {
+	// unixNow is not negative here (it is at least ValidAfter). ValidBefore is an
+	// unsigned quantity in the certificate format; compare it as one, as OpenSSH does.
+	if cert.ValidBefore != uint64(CertTimeInfinity) && uint64(unixNow) >= cert.ValidBefore {
 		return fmt.Errorf("ssh: cert has expired")
 	}
 	// Match OpenSSH: the SK user-presence flag is never enforced on a
